@@ -91,7 +91,9 @@ const (
 	vL0    = 24 // load destinations v24..v39
 	vA0    = 40 // address scratch v40..v43
 	vCNT   = 44
-	nVGPR  = 48
+	vRIN   = 48 // pair: address of the reversed work-item's IN region
+	vRIOFF = 50
+	nVGPR  = 56
 	ldsPer = 32 // LDS bytes per work-item slot
 )
 
@@ -107,6 +109,7 @@ type kb struct {
 	oStr  int // bytes per work-item in OUT
 	iStr  int // bytes per work-item in IN
 	iShift int
+	rev    bool // compute the reversed-region address (xkernel chains)
 	// ABI register numbers
 	rKA, rDisp, rWGX, rWGY, rWGZ, rCnt int
 	nMem int
@@ -242,6 +245,16 @@ func (k *kb) prologue() {
 	k.vop2(opVAddcU32, g.V(vIN+1), g.Imm(0), g.V(vIN+1))
 	// LDS slot address
 	k.vop2(opVLshl, g.V(vLDS), g.Imm(5), g.V(vLID))
+	if k.rev {
+		// region of work-item (slots-1-gid)
+		k.sop1(opSMovB32, g.S(sTMP), immOrLit(k.l.slots()-1))
+		k.vop2(26 /*v_sub_u32: src0 - src1*/, g.V(vRIOFF), g.S(sTMP), g.V(vGID))
+		k.sop1(opSMovB32, g.S(sTMP), immOrLit(k.iStr))
+		k.vop3(opVMulLo, g.V(vRIOFF), g.V(vRIOFF), g.S(sTMP), g.Operand{})
+		k.vop2(opVAddU32, g.V(vRIN), g.S(sIN), g.V(vRIOFF))
+		k.vop1(opVMov, g.V(vRIN+1), g.S(sIN+1))
+		k.vop2(opVAddcU32, g.V(vRIN+1), g.Imm(0), g.V(vRIN+1))
+	}
 }
 
 // initTemps gives every temporary a lane-dependent defined value.
@@ -278,10 +291,13 @@ func (k *kb) initTemps(seed uint64) {
 // of the work-item's IN (in=true) or OUT region. It returns addr, saddr and the
 // immediate offset to put into the instruction. form: 0 = 64-bit VGPR address,
 // 1 = SGPR base + 32-bit VGPR offset (CDNA3 only).
-func (k *kb) memAddr(in bool, off int, form int, scratch int) (addr, saddr g.Operand, imm int64) {
+func (k *kb) memAddr(region int, off int, form int, scratch int) (addr, saddr g.Operand, imm int64) {
 	base, off32, sb := vOUT, vOOFF, sOUT
-	if in {
+	switch region {
+	case regIN:
 		base, off32, sb = vIN, vIOFF, sIN
+	case regREV:
+		base, off32, sb = vRIN, vRIOFF, sIN
 	}
 	if k.arch == g.CDNA3 {
 		if form == 1 {
@@ -296,8 +312,15 @@ func (k *kb) memAddr(in bool, off int, form int, scratch int) (addr, saddr g.Ope
 	return g.VRange(scratch, 2), g.Operand{}, 0
 }
 
-func (k *kb) load(op int, dst g.Operand, in bool, off int, form int) {
-	addr, saddr, imm := k.memAddr(in, off, form, vA0)
+// regions a generated access can address
+const (
+	regOUT = 0
+	regIN  = 1
+	regREV = 2
+)
+
+func (k *kb) load(op int, dst g.Operand, region int, off int, form int) {
+	addr, saddr, imm := k.memAddr(region, off, form, vA0)
 	k.nMem++
 	if k.arch == g.CDNA3 {
 		k.add(g.GlobalLoad(op, dst, addr, saddr, imm))
@@ -307,7 +330,7 @@ func (k *kb) load(op int, dst g.Operand, in bool, off int, form int) {
 }
 
 func (k *kb) store(op int, data g.Operand, off int, form int) {
-	addr, saddr, imm := k.memAddr(false, off, form, vA0+2)
+	addr, saddr, imm := k.memAddr(regOUT, off, form, vA0+2)
 	k.nMem++
 	if k.arch == g.CDNA3 {
 		k.add(g.GlobalStore(op, addr, data, saddr, imm))
